@@ -192,7 +192,7 @@ def als(I_trn, y_trn, Y0, nswp=50, e=1.E-16, info={}, *, I_vld=None, y_vld=None,
 
         if cb:
             opts = {'Yold': Yold, 'Yl': Yl, 'Yr': Yr}
-            if cb(Y, info, opts) is True:
+            if cb(Y, info, opts):
                 info['stop'] = info['stop'] or 'cb'
 
         if teneva._info_appr(info, _time, nswp, e, e_vld, log):
